@@ -109,7 +109,27 @@ fn perturbed(c: &Cfg) -> Cfg {
 
 const T0: u64 = 1_700_000_000_000_000_000;
 
+/// Mask the randomised root id wherever it occurs: whatever token the root <svg> carries as
+/// its id (the one permitted exception) is replaced throughout the output.
 fn mask_local_id(b: &[u8]) -> Vec<u8> {
+    let text = String::from_utf8_lossy(b);
+    if let Some(p) = text.find("<svg") {
+        let tag_end = text[p..].find('>').map(|e| p + e).unwrap_or(text.len());
+        let tag = &text[p..tag_end];
+        if let Some(i) = tag.find(" id=\"") {
+            let rest = &tag[i + 5..];
+            if let Some(e) = rest.find('"') {
+                let id = &rest[..e];
+                if id.len() >= 6 {
+                    return text.replace(id, "LOCAL-STYLE-ID").into_bytes();
+                }
+            }
+        }
+    }
+    mask_local_id_pattern(b)
+}
+
+fn mask_local_id_pattern(b: &[u8]) -> Vec<u8> {
     // replace svgdx-[0-9a-f]{8} by svgdx-XXXXXXXX
     let pat = b"svgdx-";
     let mut out = b.to_vec();
